@@ -558,11 +558,16 @@ class Interp:
                 scrub()
                 rule.havoc(self, fr, kx)
                 c.ghost["phase"] = "exhausted"
-                cond = self.eval(s.test, fr)
-                c.assume(snot(cond) if isinstance(cond, SBool) else (not cond))
+                if not getattr(rule, "skip_body", False):
+                    cond = self.eval(s.test, fr)
+                    c.assume(snot(cond) if isinstance(cond, SBool) else (not cond))
             c.where = where0
             self.exec_block(s.orelse, fr)
             return
+        if getattr(rule, "skip_body", False):
+            # the rule's invariant is 'True' over arbitrary values of every modified variable: the state after the
+            # loop (normal exit or break) is covered by the havoc above; nothing is claimed about the body
+            raise PathAbort("loop body not executed (havoc-all rule)")
         # generic iteration
         k = SInt.var(c.fresh_name(f"k{ordinal}"))
         c.assume(k >= start)
